@@ -1,6 +1,6 @@
-(* Instances for OnceWF / Once: a grammar with a @leftrec rule and memoized rules that the
-   certificate of the packrat bound covers, and the grammar of the known finding
-   c06:reentrant-through-leftrec, which it rejects and on which the bound fails.
+(* Instances for OnceWF / Once: grammars with @leftrec rules and memoized rules that the
+   certificate of the packrat bound covers, and grammars - the one of the known finding
+   c06:reentrant-through-leftrec among them - which it rejects and on which the bound fails.
    (ASTs dumped through the shipped front end from the grammar texts quoted below.) *)
 From PegV Require Import Utf8 State Terminals Syntax Fields FieldsFacts Literals Model Conform WellFormed OnceWF Once.
 
@@ -19,16 +19,44 @@ Definition g_lr_memo : grammar := [
   (GRule {| r_directives := [DMemoize; DString; DNoSkipWs]; r_name := [78]%N; r_def := (EChoice [(ESeq [(EClosure (EChoice [(ESeq [(ERange (SIChar 48%N) (SIChar 57%N))])]) true)])]) |})
 ].
 
-Lemma lr_memo_certified : well_formed_once g_lr_memo = true.
+(* the usual way of writing left recursion with peginator: the recursion goes through a plain rule
+   @export @leftrec Expr = @:Add | @:Term;  Add = left:*Expr '+' right:Term;
+   @memoize Term = n:Number | '(' e:*Expr ')';  @memoize @string @no_skip_ws Number = {'0'..'9'}+;
+   and the same with Add memoized too *)
+Definition g_style : grammar := [
+  (GRule {| r_directives := [DExport; DLeftrec]; r_name := [69; 120; 112; 114]%N; r_def := (EChoice [(ESeq [(EField FOverride false [65; 100; 100]%N)]); (ESeq [(EField FOverride false [84; 101; 114; 109]%N)])]) |});
+  (GRule {| r_directives := []; r_name := [65; 100; 100]%N; r_def := (EChoice [(ESeq [(EField (FNamed [108; 101; 102; 116]%N) true [69; 120; 112; 114]%N); (ELit false [(SIChar 43%N)]); (EField (FNamed [114; 105; 103; 104; 116]%N) false [84; 101; 114; 109]%N)])]) |});
+  (GRule {| r_directives := [DMemoize]; r_name := [84; 101; 114; 109]%N; r_def := (EChoice [(ESeq [(EField (FNamed [110]%N) false [78; 117; 109; 98; 101; 114]%N)]); (ESeq [(ELit false [(SIChar 40%N)]); (EField (FNamed [101]%N) true [69; 120; 112; 114]%N); (ELit false [(SIChar 41%N)])])]) |});
+  (GRule {| r_directives := [DMemoize; DString; DNoSkipWs]; r_name := [78; 117; 109; 98; 101; 114]%N; r_def := (EChoice [(ESeq [(EClosure (EChoice [(ESeq [(ERange (SIChar 48%N) (SIChar 57%N))])]) true)])]) |})
+].
+
+Definition g_style_memo_add : grammar := [
+  (GRule {| r_directives := [DExport; DLeftrec]; r_name := [69; 120; 112; 114]%N; r_def := (EChoice [(ESeq [(EField FOverride false [65; 100; 100]%N)]); (ESeq [(EField FOverride false [84; 101; 114; 109]%N)])]) |});
+  (GRule {| r_directives := [DMemoize]; r_name := [65; 100; 100]%N; r_def := (EChoice [(ESeq [(EField (FNamed [108; 101; 102; 116]%N) true [69; 120; 112; 114]%N); (ELit false [(SIChar 43%N)]); (EField (FNamed [114; 105; 103; 104; 116]%N) false [84; 101; 114; 109]%N)])]) |});
+  (GRule {| r_directives := [DMemoize]; r_name := [84; 101; 114; 109]%N; r_def := (EChoice [(ESeq [(EField (FNamed [110]%N) false [78; 117; 109; 98; 101; 114]%N)]); (ESeq [(ELit false [(SIChar 40%N)]); (EField (FNamed [101]%N) true [69; 120; 112; 114]%N); (ELit false [(SIChar 41%N)])])]) |});
+  (GRule {| r_directives := [DMemoize; DString; DNoSkipWs]; r_name := [78; 117; 109; 98; 101; 114]%N; r_def := (EChoice [(ESeq [(EClosure (EChoice [(ESeq [(ERange (SIChar 48%N) (SIChar 57%N))])]) true)])]) |})
+].
+
+
+Lemma lr_memo_certified : well_formed_once_all g_lr_memo = true.
+Proof. vm_compute. reflexivity. Qed.
+
+(* Add is entered with Expr open (its call of Expr is a hit) and, after whitespace, with Expr not
+   open: it has a rank in each context *)
+Lemma style_certified : well_formed_once_all g_style = true.
 Proof. vm_compute. reflexivity. Qed.
 
 Lemma reentrant_not_certified : well_formed_once g_reentrant = false.
 Proof. vm_compute. reflexivity. Qed.
 
+Lemma style_memo_add_not_certified : well_formed_once g_style_memo_add = false.
+Proof. vm_compute. reflexivity. Qed.
+
 Definition scfg_doc : state_cfg := {| rec_le := true; further_gt := true |}.
 Definition rcfg_doc : rule_cfg := {| memo_closed := true; leftrec_closed := true; insens_guard := true |}.
-Definition run_reentrant (input : bytes) :=
-  m_parse unit scfg_doc term_cfg_expected fields_cfg_doc rcfg_doc no_hooks g_reentrant 40 [83]%N input tt.
+Definition run_doc (g : grammar) (rule_name : name) (input : bytes) :=
+  m_parse unit scfg_doc term_cfg_expected fields_cfg_doc rcfg_doc no_hooks g 60 rule_name input tt.
+Definition run_reentrant := run_doc g_reentrant [83]%N.
 
 (* "bm" is accepted, and the body of M was started twice at offset 0: M is entered at offset 0,
    opens A, whose body enters M at offset 0 again (no entry yet) *)
@@ -40,4 +68,18 @@ Proof.
   assert (H : g_evals gl = [([77%N], 0); ([77%N], 0)]).
   { change gl with (snd (MOk v st, gl)). rewrite <- E. vm_compute. reflexivity. }
   rewrite H. intro N. inversion N as [|x l Hn _]. apply Hn. left. reflexivity.
+Qed.
+
+(* " 1+2" (a leading blank): Expr opens at offset 0 and skips the blank, Add is entered at offset 1
+   where Expr is not open, opens it there, and is entered at offset 1 again *)
+Lemma style_memo_add_evaluated_twice :
+  exists v st gl, run_doc g_style_memo_add [69; 120; 112; 114]%N [32; 49; 43; 50]%N = (MOk v st, gl) /\ ~ NoDup (g_evals gl).
+Proof.
+  destruct (run_doc g_style_memo_add [69; 120; 112; 114]%N [32; 49; 43; 50]%N) as [[v st|e|p|] gl] eqn:E; try (vm_compute in E; discriminate).
+  exists v, st, gl. split; [reflexivity|].
+  assert (H : exists l, g_evals gl = l ++ [([65; 100; 100]%N, 1); ([65; 100; 100]%N, 1)]).
+  { change gl with (snd (MOk v st, gl)). rewrite <- E.
+    exists [([78; 117; 109; 98; 101; 114]%N, 3); ([84; 101; 114; 109]%N, 3); ([78; 117; 109; 98; 101; 114]%N, 1); ([84; 101; 114; 109]%N, 1)].
+    vm_compute. reflexivity. }
+  destruct H as [l H]. rewrite H. intro N. apply NoDup_remove_2 in N. apply N. apply in_or_app. right. left. reflexivity.
 Qed.
